@@ -20,6 +20,11 @@ PROTOCOLS = {"SelfCross": 1, "TwoWayCross": 2, "TwoWayDHCross": 2, "ThreeWayCros
              "ThreeWayDHCross": 3, "FourWayCross": 4, "FourWayDHCross": 4}
 TOL = Fraction(1, 10 ** 9)
 MAX_DRAWS_FUNCTIONAL = 900      # mating is compared functionally (scripted draws) up to this many uniforms
+IDX_DTYPES = ["int64", "int32", "int16", "int8", "uint8", "uint16", "uint32"]
+# read-only statistics interleaved with the limit evaluations (a cache primed or corrupted by one of them must not
+# change what usl/lsl/afreq report afterwards)
+TOUCH = [["afreq", None], ["afreq", "float32"], ["maf", None], ["maf", "float32"], ["meh", None], ["apoly", None],
+         ["afixed", None], ["acount", None], ["tafreq", None], ["gtcount", None], ["gtfreq", None], ["tacount", None]]
 
 
 def _mods():
@@ -36,6 +41,21 @@ def _mods():
 
 def _f(x):
     return float(Fraction(x))
+
+
+def _layout(a, how):
+    """the same int8 values in another memory layout (the constructors accept any int8 ndarray)"""
+    a = numpy.ascontiguousarray(a, dtype="int8")
+    if how == "F":
+        return numpy.asfortranarray(a)
+    if how == "strided":
+        big = numpy.full(a.shape[:-1] + (2 * a.shape[-1],), 7, dtype="int8")
+        v = big[..., ::2]
+        v[...] = a
+        return v
+    if how == "rev":
+        return numpy.ascontiguousarray(a[..., ::-1])[..., ::-1]
+    return a
 
 
 class RecordingGenerator(numpy.random.Generator):
@@ -119,24 +139,37 @@ RNGS = {"pcg64": RecordingGenerator, "mt19937": RecordingMT, "randomstate": Reco
 class C10(Prop):
     PID = "C10"
     MODULE = "PybropsModel.Props.C10"
-    N_QUICK = 70
+    N_QUICK = 90
     N_THOROUGH = 2500
-    RULE = ("static: one population (phased diploid, or unphased dosage with ploidy 1/2/4, as object or as "
-            "ndarray) of 1-12 taxa or a boundary size (49, 98, 103, 107, 161, 187, 196, 197), loci from the patterns "
+    RULE = ("static: one population (phased with 1-4 phases, or unphased dosage with ploidy 1/2/4/6, as object or as "
+            "ndarray - with and without the ploidy argument) of 1-12 taxa or a boundary size (49, 98, 103, 107, 161, 187, "
+            "196, 197), loci from the patterns "
             "fixed-1/fixed-0/one-copy-off/heterozygous/random, a best and a worst genotype added, additive models "
-            "with 1-3 traits, effects of both signs and zeros, 1-3 fixed effects; fully fixed populations at "
-            "every boundary size.  programme: founders -> [select_taxa -> one of the seven mating protocols with "
+            "with 1-3 traits, effects of both signs and zeros, 1-3 fixed effects, optional metadata (variant mask with False "
+            "entries, labels, haplotype annotations) absent or present; fully fixed populations at "
+            "every boundary size; populations of 50000 .. 600001 taxa one copy off fixation.  programme: founders -> "
+            "[selection -> one of the seven mating protocols with "
             "random cross configuration, counts and selfing depth] x 1-3 generations with a real seeded "
             "generator (Generator/PCG64, Generator/MT19937, RandomState) or a scripted Generator subclass whose uniforms hit "
-            "exactly 0.0, exactly xoprob[j] (tie), the float just below it and 1-2^-53, progeny sizes drawn from the boundary list; limits, breeding values and raw genotypes "
-            "recorded for founders, every selected parent set and every progeny set.  Non-trivial = some "
+            "exactly 0.0, exactly xoprob[j] (tie), the float just below it and 1-2^-53, progeny sizes drawn from the boundary "
+            "list; features forced in every run: founders whose variants are NOT in (chromosome, position) order; index and "
+            "count arrays of narrow integer dtypes on large parent sets (row*nvrnt beyond the dtype range), negative "
+            "indices, non-contiguous founder arrays; founders without any homozygous '1' genotype followed by selfing; "
+            "selection by IN-PLACE culling (remove_taxa) or delete_taxa with read-only statistics (maf, meh, apoly, "
+            "afreq(dtype) ...) interleaved, a doubled-haploid generation culled to ONE line; limits, breeding values and raw "
+            "genotypes recorded for founders, every selected parent set and every progeny set, the limits ALSO through the "
+            "ndarray form with the default ploidy.  uhist: unphased (ploidy 1/2/4/6) and phased non-diploid (1/3/4 phases) "
+            "populations through 1-3 rounds of select_taxa / delete_taxa / remove_taxa.  wide: every protocol with int8 .. "
+            "uint64 index arrays on 120 x 7 and 240 x 300 founders.  Non-trivial = some "
             "locus polymorphic and some effect non-zero (static) / at least one allele lost along the history "
-            "(programme)")
+            "(programme, uhist)")
     TRUSTED = ["numpy generators (their draws are recorded and replayed through the model for small cases)",
                "matrix product Z @ u_a and BreedingValueMatrix scale/unscale round trip (compared with tolerance 1e-9)"]
     ASSUMPTIONS = ["binary alleles, diploid mating, no immigration/mutation (the property's closed-history premise)",
                    "effects and fixed effects are small dyadic rationals, so the limits are exact in binary64",
-                   "cross configurations index the selected parent set (valid indices)"]
+                   "cross configurations index the selected parent set (valid indices, possibly negative = from the end)",
+                   "usl(Z) / lsl(Z) without a ploidy argument are only requested for diploid dosage matrices (the "
+                   "documented default is 2)"]
 
     # ------------------------------------------------------------------ generation helpers
     @staticmethod
@@ -172,9 +205,35 @@ class C10(Prop):
         beta = [[rng.choice([0, 0, 1, -3, 10, Fraction(5, 2)]) for _ in range(ntrait)] for _ in range(q)]
         return ntrait, canon.enc(U), canon.enc(beta)
 
+    @staticmethod
+    def _meta(rng, nt, nv):
+        """optional metadata of a genotype matrix object (all of it is None by default): labels, a variant mask with
+        False entries, haplotype annotations.  None of it may influence limits, frequencies or breeding values."""
+        m = {"vrnt_mask": [rng.random() < 0.5 for _ in range(nv)]}
+        if nv >= 2:
+            m["vrnt_mask"][rng.randrange(nv)] = False
+        if rng.random() < 0.6:
+            m["taxa"] = [f"t{(7 * i + 3) % (nt + 5)}_{i}" for i in range(nt)]
+            m["taxa_grp"] = [rng.choice([5, 2, 9]) for _ in range(nt)]
+        if rng.random() < 0.6:
+            m["vrnt_name"] = [f"m{(5 * j + 2) % (nv + 3)}_{j}" for j in range(nv)]
+            m["vrnt_genpos"] = [rng.choice([0.0, 0.25, 0.5, 1.5]) for _ in range(nv)]
+            m["vrnt_hapgrp"] = [rng.choice([1, 2, 3]) for _ in range(nv)]
+            m["vrnt_hapalt"] = [rng.choice("ACGT") for _ in range(nv)]
+            m["vrnt_hapref"] = [rng.choice("ACGT") for _ in range(nv)]
+        return m
+
+    @staticmethod
+    def _meta_kw(meta):
+        if not meta:
+            return {}
+        dt = {"taxa": object, "taxa_grp": "int64", "vrnt_name": object, "vrnt_genpos": "float64", "vrnt_hapgrp": "int64",
+              "vrnt_hapalt": object, "vrnt_hapref": object, "vrnt_mask": bool, "vrnt_chrgrp": "int64", "vrnt_phypos": "int64"}
+        return {k: numpy.array(v, dtype=dt[k]) for k, v in meta.items()}
+
     def _static(self, rng, n, fixed_only=False):
         kind = rng.choice(["phased", "phased", "unphased", "ndarray"])
-        k = 2 if kind == "phased" else rng.choice([1, 2, 2, 4])
+        k = rng.choice([1, 2, 2, 2, 3, 4]) if kind == "phased" else rng.choice([1, 2, 2, 4, 6])
         nv = rng.choice([1, 2, 3, 4, 5])
         pats = [rng.choice(["one", "zero"] if fixed_only else
                            ["one", "zero", "one_off", "zero_off", "het", "rand", "rand"]) for _ in range(nv)]
@@ -194,27 +253,70 @@ class C10(Prop):
             pop = {"nt": n, "G": [[[rows[i][j][c] for j in range(nv)] for i in range(n)] for c in range(k)]}
         else:
             pop = {"nt": n, "ploidy": k, "Z": [[sum(rows[i][j]) for j in range(nv)] for i in range(n)]}
-        return {"kind": "static", "path": kind, "nv": nv, "ntrait": ntrait, "U": U, "beta": beta, "pop": pop}
+        c = {"kind": "static", "path": kind, "nv": nv, "ntrait": ntrait, "U": U, "beta": beta, "pop": pop}
+        if kind == "ndarray" and k == 2 and rng.random() < 0.5:
+            c["noploidy"] = True            # usl(Z) / lsl(Z): the documented default ploidy is 2
+        if kind != "ndarray" and rng.random() < 0.4:
+            c["meta"] = self._meta(rng, n, nv)
+        return c
 
-    def _programme(self, rng, tier):
-        nv = rng.choice([2, 3, 4, 5])
-        n0 = rng.choice([3, 4, 6, 8, 12, rng.choice(BOUNDARY_N)])
+    FEATURES = ("unsorted", "narrow", "testcross", "inplace")
+
+    def _programme(self, rng, tier, feat=()):
+        """a closed breeding programme.  Optional features (each forced at least once per run, see `generate`):
+        unsorted  - founders whose variants are NOT stored in (chromosome, position) order (chromosome 3 before 1) and
+                    5-7 loci of which at least two are fixed at 1 and two at 0 (a permuted variant axis then shows)
+        narrow    - selection / cross-configuration / count arrays in a narrow integer dtype (int8, uint8, int16 ...)
+                    with a large selected parent set, crosses among its LAST rows (row * nvrnt exceeds the dtype range)
+        testcross - founders that carry no homozygous '1' genotype anywhere (hybrids against a '0' tester), then a
+                    protocol with selfing: homozygotes appear in the progeny
+        inplace   - selection by IN-PLACE culling (remove_taxa on the same object) or delete_taxa, read-only statistics
+                    (maf, meh, apoly, afreq(dtype) ...) interleaved with the limit evaluations, and a doubled-haploid
+                    generation culled down to ONE line (a fully fixed population)"""
+        feat = set(feat)
+        wide = bool(feat & {"unsorted", "narrow"})
+        nv = rng.choice([5, 6, 7]) if wide else rng.choice([2, 3, 4, 5])
+        if "narrow" in feat:
+            n0 = rng.choice([49, 98, 103, 107])
+        else:
+            n0 = rng.choice([3, 4, 6, 8, 12, rng.choice(BOUNDARY_N)])
         pats = [rng.choice(["one", "zero", "one_off", "zero_off", "het", "rand", "rand", "rand"]) for _ in range(nv)]
+        if wide:
+            pats = ["one", "zero", "one", "zero"] + [rng.choice(["rand", "het", "one_off", "rand"]) for _ in range(nv - 4)]
+            rng.shuffle(pats)
         loci = [self._locus(rng, n0, 2, p) for p in pats]
         G = [[[loci[j][i][c] for j in range(nv)] for i in range(n0)] for c in range(2)]
+        if "testcross" in feat:             # phase 1 = the tester (allele 0 everywhere): no dosage 2 anywhere
+            G[1] = [[0] * nv for _ in range(n0)]
+            if not any(any(r) for r in G[0]):
+                G[0][0] = [1] * nv
         ntrait, U, beta = self._model(rng, nv)
         xo = [rng.choice([0.5, 0.5, 0.25, 0.1, 0.0, 0.375]) for _ in range(nv)]
         xo[0] = 0.5
         gens = []
-        n = n0
-        for _ in range(rng.choice([1, 2, 2, 3])):
+        n = maxn = n0
+        ngen = rng.choice([1, 2, 2, 3])
+        if "inplace" in feat:
+            ngen = max(ngen, 2)
+        for gi in range(ngen):
             nsel = rng.choice([1, 2, 2, 3, 4, min(n, 6)])
             nsel = max(1, min(nsel, n))
-            if rng.random() < 0.7:
+            if "inplace" in feat and gi > 0 and gens[-1]["protocol"].endswith("DHCross") and rng.random() < 0.7:
+                nsel = 1                                # one doubled-haploid line: fixed at every locus
+            if "narrow" in feat and gi == 0:
+                select = list(range(n))                 # everybody is a candidate parent
+                if rng.random() < 0.3:
+                    rng.shuffle(select)
+                nsel = n
+            elif rng.random() < 0.7 or "inplace" in feat:
                 select = sorted(rng.sample(range(n), nsel))
             else:
                 select = [rng.randrange(n) for _ in range(nsel)]          # with repeats, unsorted
             prot = rng.choice(sorted(PROTOCOLS))
+            if "inplace" in feat and gi == 0:
+                prot = rng.choice(["TwoWayDHCross", "ThreeWayDHCross", "FourWayDHCross"])
+            if "testcross" in feat and gi == 0:
+                prot = rng.choice(["SelfCross", "TwoWayCross"])
             npar = PROTOCOLS[prot]
             target = rng.choice([1, 2, 3, 5, 8, rng.choice(BOUNDARY_N)])
             if target in (49, 98, 196) and rng.random() < 0.5:
@@ -224,21 +326,101 @@ class C10(Prop):
             else:
                 ncross = rng.choice([1, 2, 3])
                 nm, npg = rng.choice([1, 1, 2]), max(1, target // ncross)
-            xconfig = [[rng.randrange(nsel) for _ in range(npar)] for _ in range(ncross)]
+            lo = (nsel - max(1, nsel // 8)) if ("narrow" in feat and gi == 0) else 0      # the LAST rows of the parent set
+            xconfig = [[rng.randrange(lo, nsel) for _ in range(npar)] for _ in range(ncross)]
             if rng.random() < 0.3 and ncross <= 3:
                 nm_c = [rng.choice([1, 2]) for _ in range(ncross)]
                 np_c = [rng.choice([1, 2, 3]) for _ in range(ncross)]
             else:
                 nm_c, np_c = nm, npg
             nself = rng.choice([0, 0, 1, 2, 3])
-            gens.append({"select": select, "protocol": prot, "xconfig": xconfig, "nmating": nm_c,
-                         "nprogeny": np_c, "nself": nself})
+            if "testcross" in feat and gi == 0:
+                nself = rng.choice([1, 2])
+            g = {"select": select, "protocol": prot, "xconfig": xconfig, "nmating": nm_c,
+                 "nprogeny": np_c, "nself": nself}
+            if "inplace" in feat:
+                sorted_unique = select == sorted(set(select))
+                g["cull"] = rng.choice(["remove", "remove", "delete"]) if sorted_unique else "select"
+                g["touch"] = [rng.choice(TOUCH) for _ in range(rng.choice([2, 3, 5]))]
+            gens.append(g)
             nm_l = nm_c if isinstance(nm_c, list) else [nm_c] * ncross
             np_l = np_c if isinstance(np_c, list) else [np_c] * ncross
             n = sum(a * b for a, b in zip(nm_l, np_l))
-        return {"kind": "programme", "nv": nv, "ntrait": ntrait, "U": U, "beta": beta, "xo": canon.enc(xo),
+            maxn = max(maxn, n)
+        case = {"kind": "programme", "nv": nv, "ntrait": ntrait, "U": U, "beta": beta, "xo": canon.enc(xo),
                 "founders": G, "n0": n0, "seed": rng.randrange(2 ** 31), "gens": gens,
                 "rng": rng.choice(["pcg64", "scripted", "scripted", "mt19937", "randomstate"])}
+        if feat:
+            case["features"] = sorted(feat)
+        if "unsorted" in feat:
+            chrgrp = [rng.choice([3, 1, 2]) for _ in range(nv)]
+            if chrgrp == sorted(chrgrp):
+                chrgrp[0], chrgrp[-1] = 3, 1
+            case["chrgrp"] = chrgrp
+            case["phypos"] = rng.sample(range(1, 1000), nv)
+        if "narrow" in feat:
+            big = maxn                  # every index (also the complement handed to remove_taxa) is below this
+            case["idx_dtype"] = rng.choice([d for d, cap in (("int8", 128), ("uint8", 256), ("int16", 1 << 15)) if big <= cap])
+            case["cnt_dtype"] = rng.choice(["int64", "int16", "uint8"])
+        elif rng.random() < 0.3:
+            case["idx_dtype"] = rng.choice(["int32", "int16", "uint32"])
+        if "inplace" in feat:
+            case["touch0"] = [rng.choice(TOUCH) for _ in range(3)]
+        if rng.random() < 0.4:
+            case["meta"] = self._meta(rng, n0, nv)
+        if rng.random() < 0.35:
+            case["layout"] = rng.choice(["F", "strided", "rev"])       # founders handed over as a non-contiguous array
+        if case.get("idx_dtype", "int64") in ("int64", "int32", "int16") and rng.random() < 0.25:
+            case["neg_idx"] = True          # selection and cross configuration written with negative (from-the-end) indices
+        return case
+
+    def _uhist(self, rng):
+        """an UNPHASED population (ploidy 1, 2, 4 or 6; genotype codes 0..ploidy) taken through 1-3 rounds of
+        selection - select_taxa (new object), delete_taxa (new object) or remove_taxa (in place) - with the limits
+        evaluated after every round; the last round may keep a single fully homozygous individual"""
+        phased = rng.random() < 0.4                     # a PHASED population with 1, 3 or 4 phases (no mating: selection only)
+        k = rng.choice([1, 3, 4, 4]) if phased else rng.choice([1, 2, 4, 4, 6])
+        nv = rng.choice([2, 3, 4, 5])
+        n0 = rng.choice([3, 4, 6, 8, 12, rng.choice(BOUNDARY_N)])
+        pats = [rng.choice(["one", "zero", "one_off", "zero_off", "het", "rand", "rand", "rand"]) for _ in range(nv)]
+        loci = [self._locus(rng, n0, k, p) for p in pats]
+        inbred = rng.randrange(n0)                      # one fully homozygous member (mixed 0 / ploidy)
+        for j, p in enumerate(pats):
+            if p not in ("one", "zero"):
+                loci[j][inbred] = [rng.choice([0, 1])] * k
+        Z = [[sum(loci[j][i]) for j in range(nv)] for i in range(n0)]
+        G = [[[loci[j][i][c] for j in range(nv)] for i in range(n0)] for c in range(k)]
+        ntrait, U, beta = self._model(rng, nv)
+        steps, n = [], n0
+        members = list(range(n0))
+        for si in range(rng.choice([1, 2, 3])):
+            nsel = max(1, min(n, rng.choice([1, 2, 3, 4, 6, n // 2 + 1])))
+            how = rng.choice(["select", "select", "remove", "delete"])
+            pos = sorted(rng.sample(range(n), nsel))
+            if inbred in members and rng.random() < 0.6:          # keep the homozygous member (it may end up alone)
+                ip = members.index(inbred)
+                if ip not in pos:
+                    pos[rng.randrange(len(pos))] = ip
+                    pos = sorted(set(pos))
+            if how == "select" and rng.random() < 0.3:
+                pos = [rng.choice(pos) for _ in range(len(pos))]   # with repeats, unsorted
+            steps.append({"how": how, "idx": pos})
+            members = [members[i] for i in pos]
+            n = len(pos)
+        c = {"kind": "uhist", "nv": nv, "ntrait": ntrait, "U": U, "beta": beta, "ploidy": k, "steps": steps,
+             "touch": [rng.choice(TOUCH) for _ in range(rng.choice([0, 2, 4]))],
+             "idx_dtype": rng.choice(["int64", "int64", "int32", "int16", "uint8"] if n0 <= 255 else ["int64", "int32"])}
+        if phased:
+            c["G"] = G
+        else:
+            c["Z"] = Z
+        if rng.random() < 0.4:
+            c["meta"] = self._meta(rng, n0, nv)
+        if rng.random() < 0.35:
+            c["layout"] = rng.choice(["F", "strided", "rev"])
+        if c["idx_dtype"] in ("int64", "int32", "int16") and rng.random() < 0.25:
+            c["neg_idx"] = True
+        return c
 
     def corpus(self):
         out = []
@@ -278,8 +460,76 @@ class C10(Prop):
             if i in (0, 3, 4):                      # one copy of allele 1 at locus 1, everything else fixed
                 for path in (objpath, "ndarray"):
                     out.append(dict(big, n=n, ploidy=k, path=path, off="one1"))
+        # 1.2 million chromosome copies: one copy off is 8.3e-7 away from fixation (a tolerance of 1e-6 swallows it)
+        out.append(dict(big, n=600001, ploidy=2, path="ndarray", off="one0"))
+        out.append(dict(big, n=600001, ploidy=2, path="phased", off="one1"))
         # collapse clause for EVERY size 1..300 (quick); `exhaustive` extends it to 2000 (thorough)
         out.append({"kind": "sweep", "nmax": 300})
+        # founders whose variants are stored chromosome 3 before chromosome 1: a mating that re-sorts the variant axis
+        # of the progeny moves alleles to other loci (fixed-1 / fixed-0 loci alternate, effects differ per locus)
+        F = [[1, 0, 1, 0, 1, 0], [1, 0, 0, 0, 1, 1], [1, 0, 1, 0, 0, 1], [1, 0, 0, 0, 1, 0]]
+        M = [[1, 0, 0, 0, 1, 1], [1, 0, 1, 0, 0, 0], [1, 0, 1, 0, 1, 1], [1, 0, 0, 0, 0, 1]]
+        for prot, xc in (("TwoWayCross", [[0, 1], [2, 3]]), ("ThreeWayCross", [[0, 1, 2]]), ("FourWayDHCross", [[0, 1, 2, 3]]),
+                         ("SelfCross", [[1], [2]])):
+            out.append({"kind": "programme", "nv": 6, "ntrait": 1, "U": [[3], [-2], [1], [-1], [2], ["1/2"]], "beta": [[0]],
+                        "xo": canon.enc([0.5, 0.25, 0.5, 0.125, 0.5, 0.25]), "n0": 4, "seed": 23, "founders": [F, M],
+                        "chrgrp": [3, 3, 1, 1, 2, 2], "phypos": [40, 10, 70, 20, 5, 60], "features": ["unsorted"],
+                        "gens": [{"select": [0, 1, 2, 3], "protocol": prot, "xconfig": xc, "nmating": 1, "nprogeny": 4,
+                                  "nself": 0}]})
+        # one doubled-haploid line left after IN-PLACE culling, read-only statistics in between: the limits must
+        # collapse onto its breeding value (a frequency memo that survives remove_taxa / is handed out to maf() shows)
+        out.append({"kind": "programme", "nv": 4, "ntrait": 1, "U": [[2], [-1], [1], [-3]], "beta": [[1]],
+                    "xo": canon.enc([0.5, 0.5, 0.5, 0.5]), "n0": 4, "seed": 5, "features": ["inplace"],
+                    "founders": [[[1, 0, 1, 0], [0, 1, 1, 1], [1, 1, 0, 0], [0, 0, 1, 1]],
+                                 [[0, 0, 1, 1], [1, 1, 1, 0], [1, 0, 0, 1], [0, 1, 1, 0]]],
+                    "touch0": [["afreq", None], ["maf", None]],
+                    "gens": [{"select": [0, 1, 2], "cull": "remove", "touch": [["afreq", None], ["meh", None], ["apoly", None]],
+                              "protocol": "TwoWayDHCross", "xconfig": [[0, 1], [1, 2]], "nmating": 1, "nprogeny": 3, "nself": 0},
+                             {"select": [4], "cull": "remove", "touch": [["maf", None], ["afreq", "float32"], ["maf", "float32"]],
+                              "protocol": "SelfCross", "xconfig": [[0]], "nmating": 1, "nprogeny": 3, "nself": 1}]})
+        # testcross hybrids (no homozygous '1' genotype anywhere), then selfing: the limits requested through the
+        # ndarray form without a ploidy argument must already contain the homozygous descendants
+        out.append({"kind": "programme", "nv": 3, "ntrait": 1, "U": [[2], [1], [-1]], "beta": [[0]],
+                    "xo": canon.enc([0.5, 0.5, 0.5]), "n0": 3, "seed": 9, "features": ["testcross"],
+                    "founders": [[[1, 1, 0], [1, 0, 1], [0, 1, 1]], [[0, 0, 0], [0, 0, 0], [0, 0, 0]]],
+                    "gens": [{"select": [0, 1, 2], "protocol": "SelfCross", "xconfig": [[0], [1], [2]], "nmating": 1,
+                              "nprogeny": 6, "nself": 2}]})
+        # optional metadata present: a variant mask with False entries at markers that carry effects, labels, haplotype
+        # annotations - none of it may change limits or values (static phased tetraploid, and along a programme)
+        out.append({"kind": "static", "path": "phased", "nv": 3, "ntrait": 1, "U": [[2], [-1], [3]], "beta": [[0]],
+                    "meta": {"vrnt_mask": [False, True, False], "taxa": ["b", "a", "c"], "taxa_grp": [2, 1, 2]},
+                    "pop": {"nt": 3, "G": [[[1, 0, 1], [1, 1, 0], [0, 0, 1]], [[1, 0, 0], [1, 0, 0], [1, 1, 1]],
+                                           [[0, 0, 1], [1, 1, 0], [1, 0, 1]], [[1, 1, 0], [1, 0, 0], [0, 0, 1]]]}})
+        out.append({"kind": "static", "path": "unphased", "nv": 2, "ntrait": 1, "U": [[1], [-1]], "beta": [[2]],
+                    "meta": {"vrnt_mask": [False, False]}, "pop": {"nt": 3, "ploidy": 2, "Z": [[2, 1], [1, 1], [2, 0]]}})
+        out.append({"kind": "programme", "nv": 3, "ntrait": 1, "U": [[2], [1], [-1]], "beta": [[0]],
+                    "xo": canon.enc([0.5, 0.5, 0.5]), "n0": 3, "seed": 4, "meta": {"vrnt_mask": [False, True, False]},
+                    "founders": [[[1, 1, 0], [1, 0, 1], [0, 1, 1]], [[0, 1, 0], [1, 0, 0], [0, 0, 1]]],
+                    "gens": [{"select": [0, 1, 2], "protocol": "TwoWayCross", "xconfig": [[0, 1], [1, 2]], "nmating": 1,
+                              "nprogeny": 3, "nself": 1}]})
+        # a phased population with 4 phases through selection rounds (select_taxa / in-place culling)
+        out.append({"kind": "uhist", "nv": 3, "ntrait": 1, "U": [[1], [-2], [3]], "beta": [[0]], "ploidy": 4,
+                    "G": [[[1, 0, 1], [1, 1, 0], [0, 0, 1], [1, 0, 1]], [[1, 0, 0], [1, 1, 0], [1, 0, 1], [1, 0, 1]],
+                          [[1, 0, 1], [1, 1, 0], [0, 1, 1], [1, 0, 1]], [[1, 1, 0], [1, 1, 0], [0, 0, 1], [1, 0, 1]]],
+                    "idx_dtype": "int64", "touch": [["maf", None]],
+                    "steps": [{"how": "select", "idx": [0, 1, 3]}, {"how": "remove", "idx": [1, 2]}, {"how": "select", "idx": [1]}]})
+        # unphased tetraploid / hexaploid populations through selection rounds (new object, in place, delete)
+        out.append({"kind": "uhist", "nv": 3, "ntrait": 1, "U": [[1], [-2], [3]], "beta": [[0]], "ploidy": 4,
+                    "Z": [[4, 0, 3], [4, 4, 0], [3, 1, 2], [4, 0, 4], [0, 2, 4]], "idx_dtype": "int64", "touch": [],
+                    "steps": [{"how": "select", "idx": [0, 1, 3]}, {"how": "remove", "idx": [0, 2]},
+                              {"how": "select", "idx": [1, 1]}]})
+        out.append({"kind": "uhist", "nv": 2, "ntrait": 2, "U": [[1, -1], [-2, 2]], "beta": [[3, 0]], "ploidy": 6,
+                    "Z": [[6, 0], [5, 1], [6, 6], [0, 3]], "idx_dtype": "uint8", "touch": [["maf", None], ["afreq", None]],
+                    "steps": [{"how": "delete", "idx": [0, 2]}, {"how": "select", "idx": [1]}]})
+        # index arrays of every integer dtype on parent sets where row * nvrnt leaves the range of the narrow ones
+        out.append({"kind": "wide", "n": 240, "nv": 300, "seed": 5, "ncross": 6, "nself": 0,
+                    "runs": [["TwoWayCross", "int16"], ["TwoWayCross", "uint16"], ["TwoWayCross", "uint8"],
+                             ["SelfCross", "int16"], ["TwoWayDHCross", "int16"], ["ThreeWayCross", "uint16"],
+                             ["ThreeWayDHCross", "int16"], ["FourWayCross", "int16"], ["FourWayDHCross", "uint16"],
+                             ["TwoWayCross", "int32"], ["TwoWayCross", "int64"], ["TwoWayCross", "uint64"]]})
+        out.append({"kind": "wide", "n": 120, "nv": 7, "seed": 6, "ncross": 5, "nself": 1,
+                    "runs": [["TwoWayCross", "int8"], ["SelfCross", "int8"], ["FourWayDHCross", "int8"],
+                             ["ThreeWayCross", "uint8"]]})
         return out
 
     def exhaustive(self, tier):
@@ -289,29 +539,43 @@ class C10(Prop):
 
     def generate(self, rng, n, tier):
         out = []
+        nprog = 0
         for i in range(n):
             if i < len(BOUNDARY_N):
                 out.append(self._static(rng, BOUNDARY_N[i], fixed_only=(i % 2 == 0)))
                 continue
             if i in (len(BOUNDARY_N), len(BOUNDARY_N) + 1):     # two large populations of a random size per run
                 k = rng.choice([1, 2, 2, 4])
-                n = rng.randint(100000 // k + 1, 240000 // k)
+                nbig = rng.randint(100000 // k + 1, 240000 // k)
                 out.append({"kind": "big", "nv": 3, "ntrait": 2, "U": [[2, -1], [-3, 1], [1, 1]],
-                            "beta": [[1, -2], [4, 6]], "n": n, "ploidy": k, "off": "one0",
+                            "beta": [[1, -2], [4, 6]], "n": nbig, "ploidy": k, "off": "one0",
                             "path": rng.choice(["phased" if k == 2 else "unphased", "ndarray"])})
                 continue
             r = rng.random()
             if r < 0.45:
-                c = self._programme(rng, tier)
-                k = sum(1 for x in out if x["kind"] == "programme")
-                if k < 7:       # every protocol and every generator type in every run
+                k = nprog
+                nprog += 1
+                # every feature (alone, then in pairs) in every run; later programmes draw features at random
+                if k < 7:
+                    feat = [(), ("unsorted",), ("narrow",), ("testcross",), ("inplace",), ("unsorted", "inplace"),
+                            ("narrow", "unsorted")][k]
+                else:
+                    feat = tuple(f for f in self.FEATURES if rng.random() < 0.2)
+                c = self._programme(rng, tier, feat)
+                if k < 14:      # every protocol and every generator type in every run
                     c["rng"] = ["scripted", "pcg64", "mt19937", "randomstate"][k % 4]
                     g0 = c["gens"][0]
-                    prot = sorted(PROTOCOLS)[k]
-                    nsel = len(g0["select"])
-                    g0["protocol"] = prot
-                    g0["xconfig"] = [[rng.randrange(nsel) for _ in range(PROTOCOLS[prot])] for _ in g0["xconfig"]]
+                    prot = sorted(PROTOCOLS)[k % 7]
+                    if "unsorted" in feat and k < 7:
+                        prot = "TwoWayCross"
+                    if not ({"testcross", "inplace"} & set(feat)):
+                        nsel = len(g0["select"])
+                        lo = min(r_ for row in g0["xconfig"] for r_ in row)
+                        g0["protocol"] = prot
+                        g0["xconfig"] = [[rng.randrange(lo, nsel) for _ in range(PROTOCOLS[prot])] for _ in g0["xconfig"]]
                 out.append(c)
+            elif r < 0.57:
+                out.append(self._uhist(rng))
             else:
                 q = rng.random()
                 nt = rng.choice(BOUNDARY_N) if q < 0.3 else rng.choice([1, 2, 3, 3, 4, 5, 8, 12])
@@ -327,14 +591,38 @@ class C10(Prop):
                                                     trait=numpy.array([f"t{i}" for i in range(case["ntrait"])], dtype=object))
 
     @staticmethod
-    def _observe(gm, obj, Z, ploidy, as_array=False):
+    def _touch(obj, touch):
+        """call read-only statistics on the population object (results discarded)"""
+        for name, dt in touch or []:
+            f = getattr(obj, name)
+            f(dt) if dt is not None else f()
+
+    @staticmethod
+    def _observe(gm, obj, Z, ploidy, as_array=False, touch=None, noploidy=False):
+        """limits, breeding values and frequencies of one population as the implementation reports them.
+        `touch`: read-only statistics called on the object first, between the limit evaluations and before the
+        frequencies are read.  For diploid populations the limits are ALSO requested through the documented ndarray
+        form without a ploidy argument (`usl(Z)`: the default is 2) — keys `*_nd`."""
+        touch = list(touch or [])
         if as_array:
-            o = {"usl": gm.usl(Z, ploidy=ploidy), "lsl": gm.lsl(Z, ploidy=ploidy),
-                 "usl_un": gm.usl(Z, ploidy=ploidy, unscale=True), "lsl_un": gm.lsl(Z, ploidy=ploidy, unscale=True),
+            kw = {} if noploidy else {"ploidy": ploidy}
+            o = {"usl": gm.usl(Z, **kw), "lsl": gm.lsl(Z, **kw),
+                 "usl_un": gm.usl(Z, unscale=True, **kw), "lsl_un": gm.lsl(Z, unscale=True, **kw),
                  "gebv_un": gm.gebv(Z).unscale(), "afreq": Z.sum(0) / (ploidy * Z.shape[0])}
         else:
-            o = {"usl": gm.usl(obj), "lsl": gm.lsl(obj), "usl_un": gm.usl(obj, unscale=True),
-                 "lsl_un": gm.lsl(obj, unscale=True), "gebv_un": gm.gebv(obj).unscale(), "afreq": obj.afreq()}
+            C10._touch(obj, touch[0::3])
+            o = {"usl": gm.usl(obj)}
+            C10._touch(obj, touch[1::3])
+            o["lsl"] = gm.lsl(obj)
+            o["usl_un"] = gm.usl(obj, unscale=True)
+            C10._touch(obj, touch[2::3])
+            o["lsl_un"] = gm.lsl(obj, unscale=True)
+            o["gebv_un"] = gm.gebv(obj).unscale()
+            o["afreq"] = obj.afreq()
+        if ploidy == 2:
+            Zi = numpy.asarray(Z)
+            o["usl_nd"], o["lsl_nd"] = gm.usl(Zi), gm.lsl(Zi)
+            o["usl_nd_un"], o["lsl_nd_un"] = gm.usl(Zi, unscale=True), gm.lsl(Zi, unscale=True)
         o["gebv_raw"] = gm.gebv_numpy(Z)
         return {k: canon.enc(numpy.asarray(v)) for k, v in o.items()}
 
@@ -404,91 +692,232 @@ class C10(Prop):
             o = {"usl": gm.usl(obj), "lsl": gm.lsl(obj), "usl_un": gm.usl(obj, unscale=True),
                  "lsl_un": gm.lsl(obj, unscale=True), "afreq": obj.afreq()}
             gun = gm.gebv(obj).unscale()
-        graw = gm.gebv_numpy(Zi)
+        graw = numpy.asarray(gm.gebv_numpy(Zi), dtype=float)
+        gun = numpy.asarray(gun, dtype=float)
         nt_ = case["ntrait"]
-        comb = numpy.hstack([numpy.asarray(Zi, dtype=float), numpy.asarray(graw, dtype=float), numpy.asarray(gun, dtype=float)])
-        uniq, counts = numpy.unique(comb, axis=0, return_counts=True)
+        # run-length compression in linear time: group the taxa by dosage row; when the reported values are constant
+        # within every group one representative per group is exact, otherwise fall back to the distinct full rows
+        Zi = numpy.asarray(Zi)
+        key = (Zi.astype("int64") * numpy.array([(k + 1) ** 2, k + 1, 1])).sum(1)
+        ukey, first, inv, counts = numpy.unique(key, return_index=True, return_inverse=True, return_counts=True)
+        if bool((graw == graw[first][inv]).all()) and bool((gun == gun[first][inv]).all()):
+            rows, gr, gu = Zi[first], graw[first], gun[first]
+        else:
+            comb = numpy.hstack([Zi.astype(float), graw, gun])
+            uniq, counts = numpy.unique(comb, axis=0, return_counts=True)
+            rows, gr, gu = uniq[:, :3], uniq[:, 3:3 + nt_], uniq[:, 3 + nt_:]
         obs = {k_: canon.enc(numpy.asarray(v)) for k_, v in o.items()}
-        obs["gebv_raw"] = canon.enc(uniq[:, 3:3 + nt_])
-        obs["gebv_un"] = canon.enc(uniq[:, 3 + nt_:])
-        pop = {"nt": n, "ploidy": k, "rows": [[int(v) for v in r[:3]] for r in uniq], "mult": [int(c) for c in counts]}
-        return {"gens": [obs], "pop": pop, "ndistinct": int(len(uniq))}
+        obs["gebv_raw"] = canon.enc(gr)
+        obs["gebv_un"] = canon.enc(gu)
+        pop = {"nt": n, "ploidy": k, "rows": [[int(v) for v in r[:3]] for r in rows], "mult": [int(c) for c in counts]}
+        return {"gens": [obs], "pop": pop, "ndistinct": int(len(rows))}
 
     def run_impl(self, case):
         if case["kind"] == "sweep":
             return self._sweep(case)
         if case["kind"] == "big":
             return self._big(case)
+        if case["kind"] == "wide":
+            return self._wide(case)
         gmod, ug, pg, mutil, prots = _mods()
         gm = self._gm(case)
         nv = case["nv"]
         if case["kind"] == "static":
             pop = case["pop"]
+            mkw = self._meta_kw(case.get("meta"))
             if "G" in pop:
-                obj = pg.DensePhasedGenotypeMatrix(numpy.array(pop["G"], dtype="int8").reshape(2, pop["nt"], nv))
-                return {"gens": [self._observe(gm, obj, obj.mat_asformat("{0,1,2}"), 2)]}
+                k = len(pop["G"])
+                obj = pg.DensePhasedGenotypeMatrix(numpy.array(pop["G"], dtype="int8").reshape(k, pop["nt"], nv), **mkw)
+                return {"gens": [self._observe(gm, obj, obj.mat_asformat("{0,1,2}"), k)]}
             Z = numpy.array(pop["Z"], dtype="int8").reshape(pop["nt"], nv)
             if case["path"] == "ndarray":
-                return {"gens": [self._observe(gm, None, Z, pop["ploidy"], as_array=True)]}
-            obj = ug.DenseGenotypeMatrix(Z, ploidy=pop["ploidy"])
+                return {"gens": [self._observe(gm, None, Z, pop["ploidy"], as_array=True,
+                                               noploidy=bool(case.get("noploidy")))]}
+            obj = ug.DenseGenotypeMatrix(Z, ploidy=pop["ploidy"], **mkw)
             return {"gens": [self._observe(gm, obj, Z, pop["ploidy"])]}
+        idt = case.get("idx_dtype", "int64")
+        if case["kind"] == "uhist":
+            k = case["ploidy"]
+            mkw = self._meta_kw(case.get("meta"))
+            lay = case.get("layout", "C")
+            neg = bool(case.get("neg_idx"))
+            if "G" in case:
+                obj = pg.DensePhasedGenotypeMatrix(_layout(numpy.array(case["G"], dtype="int8").reshape(k, -1, nv), lay), **mkw)
+                snap = lambda o: {"nt": int(o.ntaxa), "G": canon.enc(o.mat)}
+                dose = lambda o: o.mat_asformat("{0,1,2}")
+            else:
+                obj = ug.DenseGenotypeMatrix(_layout(numpy.array(case["Z"], dtype="int8").reshape(-1, nv), lay), ploidy=k, **mkw)
+                snap = lambda o: {"nt": int(o.ntaxa), "ploidy": k, "Z": canon.enc(o.mat)}
+                dose = lambda o: o.mat
+            pops = [snap(obj)]
+            obs = [self._observe(gm, obj, dose(obj), k, touch=case.get("touch"))]
+            ploidies = [int(obj.ploidy)]
+            for st in case["steps"]:
+                obj = self._cull(obj, st["how"], st["idx"], idt, neg)
+                pops.append(snap(obj))
+                ploidies.append(int(obj.ploidy))
+                obs.append(self._observe(gm, obj, dose(obj), k, touch=case.get("touch")))
+            return {"gens": obs, "pops": pops, "ploidies": ploidies}
         # programme
         xo = numpy.array([_f(v) for v in case["xo"]])
-        cur = pg.DensePhasedGenotypeMatrix(numpy.array(case["founders"], dtype="int8").reshape(2, case["n0"], nv),
-                                           vrnt_xoprob=xo, vrnt_chrgrp=numpy.ones(nv, dtype="int64"),
-                                           vrnt_phypos=numpy.arange(nv, dtype="int64"))
+        cdt = case.get("cnt_dtype", "int64")
+        neg = bool(case.get("neg_idx"))
+        cur = pg.DensePhasedGenotypeMatrix(_layout(numpy.array(case["founders"], dtype="int8").reshape(2, case["n0"], nv),
+                                                   case.get("layout", "C")),
+                                           vrnt_xoprob=xo,
+                                           vrnt_chrgrp=numpy.array(case.get("chrgrp") or [1] * nv, dtype="int64"),
+                                           vrnt_phypos=numpy.array(case.get("phypos") or list(range(nv)), dtype="int64"),
+                                           **dict({"vrnt_name": numpy.array([f"m{j}" for j in range(nv)], dtype=object)},
+                                                  **self._meta_kw(case.get("meta"))))
         if case.get("rng") == "scripted":
             rng = ScriptedGenerator(case["seed"], xo)
         else:
             rng = RNGS[case.get("rng", "pcg64")](case["seed"])
         pops = [{"nt": int(cur.ntaxa), "G": canon.enc(cur.mat)}]
-        obs = [self._observe(gm, cur, cur.mat_asformat("{0,1,2}"), 2)]
+        obs = [self._observe(gm, cur, cur.mat_asformat("{0,1,2}"), 2, touch=case.get("touch0"))]
         matings = []
         for g in case["gens"]:
-            sel = cur.select_taxa(numpy.array(g["select"], dtype="int64"))
+            sel = self._cull(cur, g.get("cull", "select"), g["select"], idt, neg)
             pops.append({"nt": int(sel.ntaxa), "G": canon.enc(sel.mat)})
-            obs.append(self._observe(gm, sel, sel.mat_asformat("{0,1,2}"), 2))
+            obs.append(self._observe(gm, sel, sel.mat_asformat("{0,1,2}"), 2, touch=g.get("touch")))
             prot = prots[g["protocol"]](rng=rng)
-            nm = numpy.array(g["nmating"], dtype="int64") if isinstance(g["nmating"], list) else int(g["nmating"])
-            npg = numpy.array(g["nprogeny"], dtype="int64") if isinstance(g["nprogeny"], list) else int(g["nprogeny"])
+            nm = numpy.array(g["nmating"], dtype=cdt) if isinstance(g["nmating"], list) else int(g["nmating"])
+            npg = numpy.array(g["nprogeny"], dtype=cdt) if isinstance(g["nprogeny"], list) else int(g["nprogeny"])
             before = len(rng.log)
             sel_before = sel.mat.copy()
-            cur = prot.mate(sel, numpy.array(g["xconfig"], dtype="int64"), nm, npg, nself=int(g["nself"]))
+            xc = numpy.array(g["xconfig"], dtype=idt)
+            if neg:
+                xc = xc - int(sel.ntaxa)        # numpy's index rule: -ntaxa <= s < 0 names taxon s + ntaxa
+            cur = prot.mate(sel, xc, nm, npg, nself=int(g["nself"]))
             draws = rng.log[before:]
             pops.append({"nt": int(cur.ntaxa), "G": canon.enc(cur.mat)})
-            obs.append(self._observe(gm, cur, cur.mat_asformat("{0,1,2}"), 2))
+            obs.append(self._observe(gm, cur, cur.mat_asformat("{0,1,2}"), 2, touch=g.get("touch")))
             ndraw = sum(d.size for d in draws)
+            meta_ok = all(self._same(getattr(cur, a), getattr(sel, a))
+                          for a in ("vrnt_chrgrp", "vrnt_phypos", "vrnt_xoprob", "vrnt_name", "vrnt_mask", "vrnt_genpos",
+                                    "vrnt_hapgrp", "vrnt_hapalt", "vrnt_hapref"))
             matings.append({"ndraws": ndraw, "parents_untouched": bool((sel_before == sel.mat).all()),
+                            "meta_ok": bool(meta_ok),
                             "draws": canon.enc(draws) if ndraw <= (4 * MAX_DRAWS_FUNCTIONAL if case.get("rng") == "scripted"
                                                                    else MAX_DRAWS_FUNCTIONAL) else None})
         return {"gens": obs, "pops": pops, "matings": matings,
                 "ties": getattr(rng, "nties", 0), "zeros": getattr(rng, "nzero", 0)}
+
+    @staticmethod
+    def _same(a, b):
+        if a is None or b is None:
+            return a is None and b is None
+        return len(a) == len(b) and all(x == y for x, y in zip(a, b))
+
+    @staticmethod
+    def _complement(n, idx):
+        keep = set(idx)
+        return [i for i in range(n) if i not in keep]
+
+    @staticmethod
+    def _cull(obj, how, idx, idt, neg=False):
+        """selection of the taxa `idx` from the population object: `select` = select_taxa (a new object; repeats and
+        any order allowed), `delete` = delete_taxa of the others (a new object), `remove` = remove_taxa of the others
+        IN PLACE on the same object (idx sorted, no repeats for the last two)"""
+        n = int(obj.ntaxa)
+        if how == "select":
+            a = numpy.array(idx, dtype=idt)
+            return obj.select_taxa(a - n if neg else a)
+        comp = numpy.array(C10._complement(n, idx), dtype=idt)
+        if neg:
+            comp = comp - n
+        if how == "delete":
+            return obj.delete_taxa(comp)
+        obj.remove_taxa(comp)
+        return obj
+
+    def _wide(self, case):
+        """mating with index arrays of EVERY integer dtype on a founder population large enough that
+        row * nvrnt leaves the range of the narrow ones (int8: 127, uint8: 255, int16: 32767, uint16: 65535), markers
+        alternating fixed-1 / fixed-0 / segregating and a marker count that does not divide 65536.  Judged here (numpy):
+        every progeny allele at locus j must be carried by a parent at locus j, the limits must not widen and every
+        progeny value must lie inside the parents' limits."""
+        gmod, ug, pg, mutil, prots = _mods()
+        n, nv = case["n"], case["nv"]
+        r = numpy.random.default_rng(case["seed"])
+        G = r.integers(0, 2, size=(2, n, nv)).astype("int8")
+        G[:, :, 0::3] = 1
+        G[:, :, 1::3] = 0
+        u = numpy.where(numpy.arange(nv) % 2 == 0, 1.0, -1.0)[:, None] * (1 + (numpy.arange(nv) % 5))[:, None]
+        gm = gmod.DenseAdditiveLinearGenomicModel(beta=numpy.array([[0.0]]), u_misc=None, u_a=u,
+                                                  trait=numpy.array(["t0"], dtype=object))
+        xo = numpy.full(nv, 0.05)
+        xo[0] = 0.5
+        P = pg.DensePhasedGenotypeMatrix(G, vrnt_xoprob=xo, vrnt_chrgrp=numpy.ones(nv, dtype="int64"),
+                                         vrnt_phypos=numpy.arange(nv, dtype="int64"))
+        pu, pl = gm.usl(P), gm.lsl(P)
+        present = [numpy.array([(G[:, :, j] == a).any() for j in range(nv)]) for a in (0, 1)]
+        bad = []
+        for prot_name, dt in case["runs"]:
+            npar = PROTOCOLS[prot_name]
+            prot = prots[prot_name](rng=numpy.random.default_rng(case["seed"] + 1))
+            rows = [[n - 1 - ((3 * c + p) % max(1, n // 10)) for p in range(npar)] for c in range(case["ncross"])]
+            Q = prot.mate(P, numpy.array(rows, dtype=dt), 1, 2, nself=case.get("nself", 0))
+            M = Q.mat
+            why = []
+            for a in (0, 1):
+                newly = numpy.array([(M[:, :, j] == a).any() for j in range(nv)]) & ~present[a]
+                if newly.any():
+                    why.append(f"allele {a} absent in the parents appears at loci {numpy.flatnonzero(newly)[:5].tolist()}")
+            qu, ql, gv = gm.usl(Q), gm.lsl(Q), gm.gebv_numpy(Q.mat_asformat("{0,1,2}"))
+            if (qu > pu + 1e-9).any():
+                why.append("usl increases")
+            if (ql < pl - 1e-9).any():
+                why.append("lsl decreases")
+            if (gv > pu + 1e-9).any() or (gv < pl - 1e-9).any():
+                why.append("progeny value outside the parents' limits")
+            if why:
+                bad.append([prot_name, dt, why])
+        return {"bad": bad[:10], "nbad": len(bad)}
 
     # ------------------------------------------------------------------ model requests
     @staticmethod
     def _counts(v, ncross):
         return list(v) if isinstance(v, list) else [v] * ncross
 
-    def requests(self, case, obs):
-        if case["kind"] == "sweep":
-            return []
+    def _labelled(self, case, obs):
+        """[(label, request)]: the judge finds its answers by label"""
         base = {"nv": case["nv"], "ntrait": case["ntrait"], "U": case["U"], "beta": case["beta"]}
         pops = [case["pop"]] if case["kind"] == "static" else [obs["pop"]] if case["kind"] == "big" else obs["pops"]
-        reqs = [dict(base, op="c10.limits", pop=p) for p in pops]
+        out = [(f"limits{i}", dict(base, op="c10.limits", pop=p)) for i, p in enumerate(pops)]
         keys = ("usl", "lsl", "usl_un", "lsl_un", "gebv_raw", "gebv_un")
-        reqs.append(dict(base, op="c10.spec", tol=canon.enc(TOL), pops=pops,
-                         obs=[{k: o[k] for k in keys} for o in obs["gens"]]))
+        out.append(("spec", dict(base, op="c10.spec", tol=canon.enc(TOL), pops=pops,
+                                 obs=[{k: o[k] for k in keys} for o in obs["gens"]])))
+        if all("usl_nd" in o for o in obs["gens"]):
+            # the same Spec on the limits reported through the ndarray form with the default ploidy
+            nd = {"usl": "usl_nd", "lsl": "lsl_nd", "usl_un": "usl_nd_un", "lsl_un": "lsl_nd_un"}
+            out.append(("spec_nd", dict(base, op="c10.spec", tol=canon.enc(TOL), pops=pops,
+                                        obs=[{k: o[nd.get(k, k)] for k in keys} for o in obs["gens"]])))
+        if case["kind"] == "uhist":
+            for i, st in enumerate(case["steps"]):
+                rem = st["how"] != "select"
+                idx = self._complement(pops[i]["nt"], st["idx"]) if rem else st["idx"]
+                key = "G" if "G" in pops[i] else "Z"
+                out.append((f"select{i}", {"op": "c10.select", key: pops[i][key], "idx": idx, "remove": rem}))
         if case["kind"] == "programme":
             for i, g in enumerate(case["gens"]):
-                reqs.append({"op": "c10.select", "G": pops[2 * i]["G"], "idx": g["select"]})
+                rem = g.get("cull", "select") != "select"
+                idx = self._complement(pops[2 * i]["nt"], g["select"]) if rem else g["select"]
+                out.append((f"select{i}", {"op": "c10.select", "G": pops[2 * i]["G"], "idx": idx, "remove": rem}))
             for i, (g, m) in enumerate(zip(case["gens"], obs["matings"])):
                 if m["draws"] is not None:
                     nc = len(g["xconfig"])
-                    reqs.append({"op": "c10.mate", "protocol": g["protocol"], "geno": pops[2 * i + 1]["G"],
-                                 "xo": case["xo"], "xconfig": g["xconfig"],
-                                 "nmating": self._counts(g["nmating"], nc), "nprogeny": self._counts(g["nprogeny"], nc),
-                                 "nself": g["nself"], "draws": m["draws"]})
-        return reqs
+                    out.append((f"mate{i}", {"op": "c10.mate", "protocol": g["protocol"], "geno": pops[2 * i + 1]["G"],
+                                             "xo": case["xo"], "xconfig": g["xconfig"],
+                                             "nmating": self._counts(g["nmating"], nc),
+                                             "nprogeny": self._counts(g["nprogeny"], nc),
+                                             "nself": g["nself"], "draws": m["draws"]}))
+        return out
+
+    def requests(self, case, obs):
+        if case["kind"] in ("sweep", "wide"):
+            return []
+        return [r for _, r in self._labelled(case, obs)]
 
     def judge(self, case, obs, answers):
         if case["kind"] == "sweep":
@@ -496,16 +925,20 @@ class C10(Prop):
             return {"corr": ok, "spec": ok, "nontrivial": True,
                     "detail": f"spec_fail=[{'' if ok else 'fixed population: usl=lsl=gebv at sizes'}] "
                               f"sweep 1..{case['nmax']} failing={obs['bad'][:6]} count={obs['nbad']}"}
+        if case["kind"] == "wide":
+            ok = obs["nbad"] == 0
+            return {"corr": ok, "spec": ok, "nontrivial": True,
+                    "detail": f"spec_fail=[{'' if ok else 'closed mating step with index dtype'}] wide n={case['n']} "
+                              f"nv={case['nv']} failing={obs['bad'][:4]} count={obs['nbad']}"}
         for a in answers:
             if "err" in a:
                 return {"corr": False, "spec": False, "nontrivial": True,
                         "detail": "driver rejected the implementation's output: " + a["err"][:300]}
+        ans = {lab: a["ok"] for (lab, _), a in zip(self._labelled(case, obs), answers)}
         ngen = len(obs["gens"])
-        lim = [a["ok"] for a in answers[:ngen]]
-        spec = answers[ngen]["ok"]
-        nsel = len(case["gens"]) if case["kind"] == "programme" else 0
-        sel_ans = [a["ok"] for a in answers[ngen + 1:ngen + 1 + nsel]]
-        mate_ans = [a["ok"] for a in answers[ngen + 1 + nsel:]]
+        lim = [ans[f"limits{i}"] for i in range(ngen)]
+        spec = ans["spec"]
+        spec_nd = ans.get("spec_nd", {"ok": True, "detail": ""})
         if not all(m["valid"] for m in lim) and case["kind"] in ("static", "big"):
             raise RuntimeError("generator produced an invalid population")
         bad = []
@@ -518,18 +951,28 @@ class C10(Prop):
             for k in ("usl", "lsl", "usl_un", "lsl_un", "gebv_raw", "gebv_un"):
                 if not canon.close_enc(m[k], o[k], rel=1e-9, abs_=1e-9):
                     bad.append(f"gen{gi}.{k}")
+            for k in ("usl", "lsl", "usl_un", "lsl_un"):
+                kn = k.replace("sl", "sl_nd", 1)
+                if kn in o and not canon.close_enc(m[k], o[kn], rel=1e-9, abs_=1e-9):
+                    bad.append(f"gen{gi}.{kn}")
+        if case["kind"] == "uhist":
+            for i in range(len(case["steps"])):
+                if ans[f"select{i}"] != obs["pops"][i + 1].get("G", obs["pops"][i + 1].get("Z")):
+                    bad.append(f"selection{i}: {case['steps'][i]['how']} != model")
+            if any(pl != case["ploidy"] for pl in obs["ploidies"]):
+                bad.append(f"ploidy of the selected object: {obs['ploidies']}")
         if case["kind"] == "programme":
-            for i, sa in enumerate(sel_ans):
-                if sa != obs["pops"][2 * i + 1]["G"]:
-                    bad.append(f"selection{i}: select_taxa != model")
-            k = 0
+            for i in range(len(case["gens"])):
+                if ans[f"select{i}"] != obs["pops"][2 * i + 1]["G"]:
+                    bad.append(f"selection{i}: {case['gens'][i].get('cull', 'select')} != model")
             for i, mt in enumerate(obs["matings"]):
                 if not mt["parents_untouched"]:
                     bad.append(f"mating{i}:parents modified")
+                if not mt.get("meta_ok", True):
+                    bad.append(f"mating{i}:variant metadata of the progeny differs from the parents'")
                 if mt["draws"] is not None:
-                    if mate_ans[k] != obs["pops"][2 * i + 2]["G"]:
+                    if ans[f"mate{i}"] != obs["pops"][2 * i + 2]["G"]:
                         bad.append(f"mating{i}:{case['gens'][i]['protocol']} progeny != model")
-                    k += 1
         corr = not bad
         # non-triviality
         if case["kind"] == "big":
@@ -537,28 +980,58 @@ class C10(Prop):
         elif case["kind"] == "static":
             fr = [canon.dec(x) for x in obs["gens"][0]["afreq"]]
             nontriv = any(0 < x < 1 for x in fr) and any(Fraction(v) != 0 for r in case["U"] for v in r)
+        elif case["kind"] == "uhist":
+            f0 = [canon.dec(x) for x in obs["gens"][0]["afreq"]]
+            f1 = [canon.dec(x) for x in obs["gens"][-1]["afreq"]]
+            nontriv = any(0 < x < 1 and y in (0, 1) for x, y in zip(f0, f1))
         else:
             def alleles(p):
                 G = p["G"]
                 return [{G[c][i][j] for c in range(2) for i in range(p["nt"])} for j in range(case["nv"])]
             a0, a1 = alleles(obs["pops"][0]), alleles(obs["pops"][-1])
             nontriv = any(len(x) > len(y) for x, y in zip(a0, a1))
-        detail = (f"spec_fail=[{spec['detail']}] model_vs_impl_diff={bad[:6]} kind={case['kind']} "
+        fails = spec["detail"] + ("" if spec_nd["ok"] else " | ndarray form, default ploidy: " + spec_nd["detail"])
+        detail = (f"spec_fail=[{fails}] model_vs_impl_diff={bad[:6]} kind={case['kind']} "
+                  f"features={case.get('features', [])} "
                   f"sizes={[p['nt'] for p in (obs.get('pops') or [obs.get('pop') or case['pop']])]} "
                   f"usl={obs['gens'][0]['usl']} lsl={obs['gens'][0]['lsl']}")
-        return {"corr": corr, "spec": bool(spec["ok"]), "nontrivial": bool(nontriv), "detail": detail}
+        return {"corr": corr, "spec": bool(spec["ok"]) and bool(spec_nd["ok"]), "nontrivial": bool(nontriv),
+                "detail": detail}
 
     def signature(self, case, obs, verdict):
         return {"kind": case["kind"], "clauses": (verdict.get("detail", "").split("]")[0])[:200]}
 
     def shrink(self, case):
-        if case["kind"] == "sweep":
+        if case["kind"] in ("sweep",):
+            return
+        if case["kind"] == "wide":
+            for i in range(len(case["runs"])):
+                if len(case["runs"]) > 1:
+                    yield dict(case, runs=case["runs"][:i] + case["runs"][i + 1:])
             return
         if case["kind"] == "big":
             if case["n"] > 50000:
                 yield dict(case, n=max(50000, case["n"] // 2))
             return
         nv = case["nv"]
+        for key in ("layout", "neg_idx"):
+            if case.get(key):
+                yield {k: v for k, v in case.items() if k != key}
+        if case.get("meta"):
+            yield {k: v for k, v in case.items() if k != "meta"}
+            if len(case["meta"]) > 1:
+                yield dict(case, meta={"vrnt_mask": case["meta"]["vrnt_mask"]})
+        if case["kind"] == "static":
+            case = {k: v for k, v in case.items() if k != "meta"}        # labels would not fit a smaller population
+        if case["kind"] == "uhist":
+            if len(case["steps"]) > 1:
+                yield dict(case, steps=case["steps"][:-1])
+            if case.get("touch"):
+                yield dict(case, touch=[])
+                yield dict(case, touch=case["touch"][:1])
+            if case["ntrait"] > 1:
+                yield dict(case, ntrait=1, U=[r[:1] for r in case["U"]], beta=[r[:1] for r in case["beta"]])
+            return
         if case["kind"] == "static":
             pop = case["pop"]
             nt = pop["nt"]
@@ -597,6 +1070,12 @@ class C10(Prop):
                     gs = list(case["gens"])
                     gs[i] = dict(g, nself=0)
                     yield dict(case, gens=gs)
+                if g.get("touch"):
+                    gs = list(case["gens"])
+                    gs[i] = dict(g, touch=g["touch"][:len(g["touch"]) // 2])
+                    yield dict(case, gens=gs)
+            if case.get("touch0"):
+                yield dict(case, touch0=[])
             if case["ntrait"] > 1:
                 yield dict(case, ntrait=1, U=[r[:1] for r in case["U"]], beta=[r[:1] for r in case["beta"]])
 
@@ -733,7 +1212,89 @@ class C10(Prop):
             return out
         _orig_select = PG.__dict__["select_taxa"]
 
+        # -- classes found by independent breaking changes (round 4)
+        TW = prots["TwoWayCross"]
+        _orig_tw_mate = TW.__dict__["mate"]
+
+        def twoway_mate_regroups(self, pgmat, xconfig, nmating=1, nprogeny=1, miscout=None, nself=0, **kw):
+            progeny = _orig_tw_mate(self, pgmat, xconfig, nmating, nprogeny, miscout, nself, **kw)
+            if progeny.vrnt_chrgrp is not None:
+                progeny.group_vrnt()                    # lexsorts the variant axis: loci move when the founders are unsorted
+            return progeny
+
+        _orig_ug_select = UG.__dict__["select_taxa"]
+        DTVM = UG.__mro__[1]
+
+        def u_select_drops_ploidy(self, indices, **kw):
+            if type(self) is UG:
+                return DTVM.select_taxa(self, indices=indices, **kw)      # constructor default ploidy = 2
+            return _orig_ug_select(self, indices, **kw)
+
+        def p_afreq_memo(self, dtype=None):
+            memo = self.__dict__.get("_afreq_memo")
+            if memo is None or memo[0] is not self.__dict__.get("_mat_set_token"):
+                memo = (self.__dict__.get("_mat_set_token"), self._mat.sum((self.phase_axis, self.taxa_axis)) / (self.ploidy * self.ntaxa))
+                self.__dict__["_afreq_memo"] = memo
+            return cast(memo[1], dtype)                  # the memoised array itself is handed out
+
+        _pg_mat_prop = PG.__dict__["mat"]
+
+        def _pg_mat_set(self, value):
+            _pg_mat_prop.fset(self, value)
+            self.__dict__["_mat_set_token"] = object()   # the memo is dropped by the setter only
+
+        pg_mat_memo = property(_pg_mat_prop.fget, _pg_mat_set, _pg_mat_prop.fdel, _pg_mat_prop.__doc__)
+
+        def meiosis_flat_take(geno, sel, xoprob, rng):
+            rnd = rng.uniform(0, 1, (len(sel), len(xoprob)))
+            phase = numpy.cumsum(rnd < xoprob, axis=1) & 1
+            ntaxa, nvrnt = geno.shape[1:]
+            rowix = numpy.asarray(sel) * nvrnt                        # computed in the dtype of `sel`: wraps for int8/int16
+            ix = phase * (ntaxa * nvrnt) + rowix[:, None] + numpy.arange(nvrnt)
+            return numpy.take(geno, ix)
+
+        def limit_ploidy_from_max(which):
+            def f(self, gtobj, ploidy=None, unscale=False, **kw):
+                if isinstance(gtobj, numpy.ndarray):
+                    if ploidy is None:
+                        ploidy = int(gtobj.max())                     # 'read the ploidy off the matrix'
+                    p = gtobj.sum(0) / (ploidy * gtobj.shape[0])
+                else:
+                    p, ploidy = gtobj.afreq(), gtobj.ploidy
+                return getattr(self, which)(p, ploidy, unscale, **kw)
+            return f
+
+        def limit_masked_variants_lost(which):
+            def f(self, gtobj, ploidy=None, unscale=False, **kw):
+                if isinstance(gtobj, numpy.ndarray):
+                    ploidy = 2 if ploidy is None else ploidy
+                    p = gtobj.sum(0) / (ploidy * gtobj.shape[0])
+                else:
+                    p, ploidy = gtobj.afreq(), gtobj.ploidy
+                    if getattr(gtobj, "vrnt_mask", None) is not None:
+                        p = numpy.where(gtobj.vrnt_mask, p, 0.0)    # 'masked variants are not part of the panel'
+                return getattr(self, which)(p, ploidy, unscale, **kw)
+            return f
+
+        pg_ploidy_default = property(lambda self: self._ploidy)       # the constructor default (2), not the phases
+
+        def p_acount_native(self, dtype=None):
+            return self._mat.sum((self.phase_axis, self.taxa_axis), dtype=self._mat.dtype if dtype is None else dtype)
+
+        def p_afreq_via_acount(self, dtype=None):
+            return cast(self.acount() / (self.ploidy * self.ntaxa), dtype)
+
         return [
+            ("usl_lsl_masked_variants_count_as_lost", lambda: patch((GM, "usl", limit_masked_variants_lost("usl_numpy")),
+                                                                     (GM, "lsl", limit_masked_variants_lost("lsl_numpy")))),
+            ("phased_ploidy_is_constructor_default", lambda: patch((PG, "ploidy", pg_ploidy_default))),
+            ("phased_afreq_from_int8_allele_counts", lambda: patch((PG, "acount", p_acount_native), (PG, "afreq", p_afreq_via_acount))),
+            ("twoway_progeny_variants_regrouped", lambda: patch((TW, "mate", twoway_mate_regroups))),
+            ("unphased_select_taxa_drops_ploidy", lambda: patch((UG, "select_taxa", u_select_drops_ploidy))),
+            ("phased_afreq_memo_dropped_by_setter_only", lambda: patch((PG, "afreq", p_afreq_memo), (PG, "mat", pg_mat_memo))),
+            ("meiosis_flat_take_index_in_sel_dtype", lambda: patch(*mate_with(meiosis_flat_take))),
+            ("usl_lsl_ndarray_default_ploidy_from_max", lambda: patch((GM, "usl", limit_ploidy_from_max("usl_numpy")),
+                                                                       (GM, "lsl", limit_ploidy_from_max("lsl_numpy")))),
             ("usl_fixation_test_loosened", lambda: patch((GM, "usl_numpy", usl_loose))),
             ("usl_where_branches_swapped", lambda: patch((GM, "usl_numpy", usl_swapped))),
             ("lsl_without_ploidy", lambda: patch((GM, "lsl_numpy", lsl_noploidy))),
